@@ -232,6 +232,20 @@ CHECKS = {
             "fresh and reused objects, vector strikes, notional linear.",
             "Barrier products are kept in identity representation (the barrier is compared with the raw path); "
             "LookBack raises by design and is excluded."),
+    "C18": ("3/C18",
+            "Hypothesis-generated exponential models, maturities and strike ladders; validity predicates (parity, "
+            "bounds, monotone, convex, digital, density) and differentials between COS, FFT, the Black-Scholes closed "
+            "form and the VG/CGMY parametrisations; the admissible box is measured per case by a convergence sweep",
+            "Exploration: for BS, HEM, Merton, VG and CGMY (five branches, y<=1.8), T in [0.1,3] and ladders of 3..9 "
+            "strikes in the inner 40% of the pricer's truncation range: call-put = df(F-K) with the model forward, "
+            "max(df(F-K),0) <= call <= df F, monotone and convex in K, digital in [0,df], decreasing and = -dC/dK, "
+            "scalar = vector strikes, implied density >= 0 and of mass 1 (both up to the truncation error measured "
+            "by the sweep), price() dispatch; COS = closed form on BS (1e-7), FFT = COS (1e-3, strikes >= 0.25 spot, "
+            "log-return stddev <= 0.8), VG = its CGMY parametrisation (1e-7). On smooth models (BS, HEM, Merton) a "
+            "failed sweep is itself a violation.",
+            "'Provably below tolerance' is replaced by a measured sweep (n=10000,L=10) vs (n=40000,L=20): cases "
+            "outside are counted as rejected; FFT comparisons are restricted to the domain where its fixed step and "
+            "damping are adequate (documented probes)."),
 }
 
 NOT_YET = "check not built yet in this session; will be claimed when its module exists"
